@@ -374,6 +374,10 @@ pub enum SOp {
     /// input pairs, spare capacity of the input vector
     FillSample(Vec<(u64, i64)>, u8),
     RoomLeft(i64),
+    /// a burst of `n` distinct hashed keys `start..start+n`, each with `cost`, of which all but the
+    /// first `keep` are removed again at once (keep = 255: none is removed): drives the tracker's
+    /// table through sizes (and allocation thresholds) that single operations never reach
+    Burst { start: u64, n: u16, cost: i64, keep: u8 },
 }
 
 #[derive(Clone, Debug, Serialize, Deserialize)]
@@ -421,7 +425,26 @@ pub fn scase_strategy(thorough: bool, extreme: bool) -> BoxedStrategy<SCase> {
     scase_strategy_with(thorough, false)
 }
 
+fn burst_op() -> BoxedStrategy<SOp> {
+    (
+        prop_oneof![1 => Just(0u64), 2 => Just(1u64 << 20), 1 => any::<u64>()],
+        prop_oneof![2 => 1u16..200, 2 => 900u16..4000, 1 => 200u16..900],
+        -3i64..50,
+        prop_oneof![3 => 0u8..8, 1 => Just(255u8)],
+    )
+        .prop_map(|(start, n, cost, keep)| SOp::Burst { start, n, cost, keep })
+        .boxed()
+}
+
 fn scase_strategy_with(thorough: bool, extreme: bool) -> BoxedStrategy<SCase> {
+    if !extreme {
+        // one case in sixteen contains bursts of up to 4 000 distinct keys
+        return prop_oneof![15 => scase_strategy_with2(thorough, false, 0), 1 => scase_strategy_with2(false, false, 4)].boxed();
+    }
+    scase_strategy_with2(thorough, extreme, 0)
+}
+
+fn scase_strategy_with2(thorough: bool, extreme: bool, burst_weight: u32) -> BoxedStrategy<SCase> {
     let cost = move || cost(extreme);
     let key = || prop_oneof![10 => 0u64..8, 1 => Just(u64::MAX), 1 => Just(0u64), 1 => any::<u64>()];
     let op = prop_oneof![
@@ -435,7 +458,9 @@ fn scase_strategy_with(thorough: bool, extreme: bool) -> BoxedStrategy<SCase> {
         3 => max_cost_strategy().prop_map(SOp::UpdateMaxCost),
         6 => (prop::collection::vec((key(), cost()), 0..8), prop_oneof![1 => Just(0u8), 1 => 1u8..40]).prop_map(|(v, slack)| SOp::FillSample(v, slack)),
         8 => cost().prop_map(SOp::RoomLeft),
-    ];
+    ]
+    .boxed();
+    let op = if burst_weight > 0 { prop_oneof![81 => op, burst_weight => burst_op()].boxed() } else { op };
     let n = if extreme { 12 } else if thorough { 200 } else { 80 };
     (
         max_cost_strategy(),
@@ -485,6 +510,27 @@ fn run_sampled_inner(c: &SCase, prop: E7Prop, rep: &mut CaseReport) -> Result<()
         _ => SampledLFU::with_samples_and_key_hasher_and_hasher(c.max_cost, c.samples, kh(), mk_hs(c.hs)),
     };
     let mut m: BTreeMap<u64, i64> = BTreeMap::new();
+    // the exact sum of the recorded costs, kept incrementally (bursts make `m` large)
+    let mut sum: i128 = 0;
+    macro_rules! ins {
+        ($k:expr, $v:expr) => {{
+            if let Some(o) = m.insert($k, $v) {
+                sum -= o as i128;
+            }
+            sum += $v as i128;
+        }};
+    }
+    macro_rules! rem {
+        ($k:expr) => {{
+            let o = m.remove($k);
+            if let Some(o) = o {
+                sum -= o as i128;
+            }
+            o
+        }};
+    }
+    let mut burst_cleared = false;
+    let mut grown = false;
     let mut max_cost = c.max_cost;
     let mut reinc_then_check = false;
     let mut reinc_pending = false;
@@ -499,21 +545,21 @@ fn run_sampled_inner(c: &SCase, prop: E7Prop, rep: &mut CaseReport) -> Result<()
                     reinc_pending = true;
                 }
                 s.increment(k, *cst);
-                m.insert(h, *cst);
+                ins!(h, *cst);
             }
             SOp::IncHashed(h, cst) => {
                 if m.contains_key(h) {
                     reinc_pending = true;
                 }
                 s.increment_hashed_key(*h, *cst);
-                m.insert(*h, *cst);
+                ins!(*h, *cst);
             }
             SOp::Update(k, cst) => {
                 let h = s.hash_key(k);
                 let r = s.update(k, *cst);
                 let e = m.contains_key(&h);
                 if e {
-                    m.insert(h, *cst);
+                    ins!(h, *cst);
                 }
                 if chk && r != e {
                     return Err(sv(prop, i, "update-result", format!("step {i} {op:?}: update returned {r}, key tracked: {e}")));
@@ -523,7 +569,7 @@ fn run_sampled_inner(c: &SCase, prop: E7Prop, rep: &mut CaseReport) -> Result<()
                 let r = s.update_hashed_key(*h, *cst);
                 let e = m.contains_key(h);
                 if e {
-                    m.insert(*h, *cst);
+                    ins!(*h, *cst);
                 }
                 if chk && r != e {
                     return Err(sv(prop, i, "update-result", format!("step {i} {op:?}: update_hashed_key returned {r}, key tracked: {e}")));
@@ -532,7 +578,7 @@ fn run_sampled_inner(c: &SCase, prop: E7Prop, rep: &mut CaseReport) -> Result<()
             SOp::Remove(k) => {
                 let h = s.hash_key(k);
                 let r = s.remove(k);
-                let e = m.remove(&h);
+                let e = rem!(&h);
                 if reinc_pending {
                     reinc_then_check = true;
                 }
@@ -542,7 +588,7 @@ fn run_sampled_inner(c: &SCase, prop: E7Prop, rep: &mut CaseReport) -> Result<()
             }
             SOp::RemoveHashed(h) => {
                 let r = s.remove_hashed_key(*h);
-                let e = m.remove(h);
+                let e = rem!(h);
                 if reinc_pending {
                     reinc_then_check = true;
                 }
@@ -553,6 +599,30 @@ fn run_sampled_inner(c: &SCase, prop: E7Prop, rep: &mut CaseReport) -> Result<()
             SOp::Clear => {
                 s.clear();
                 m.clear();
+                sum = 0;
+                if grown {
+                    burst_cleared = true;
+                }
+            }
+            SOp::Burst { start, n, cost, keep } => {
+                for j in 0..*n as u64 {
+                    let h = start.wrapping_add(j);
+                    s.increment_hashed_key(h, *cost);
+                    ins!(h, *cost);
+                }
+                if m.len() > 1024 {
+                    grown = true;
+                }
+                if *keep != 255 {
+                    for j in (*keep as u64).min(*n as u64)..*n as u64 {
+                        let h = start.wrapping_add(j);
+                        let r = s.remove_hashed_key(h);
+                        let e = rem!(&h);
+                        if chk && r != e {
+                            return Err(sv(prop, i, "remove-result", format!("step {i} {op:?}: remove_hashed_key({h}) returned {:?}, recorded cost {:?}", r, e)));
+                        }
+                    }
+                }
             }
             SOp::UpdateMaxCost(mc) => {
                 s.update_max_cost(*mc);
@@ -596,7 +666,6 @@ fn run_sampled_inner(c: &SCase, prop: E7Prop, rep: &mut CaseReport) -> Result<()
             }
         }
         if chk {
-            let sum: i128 = m.values().map(|c| *c as i128).sum();
             let probe = match op {
                 SOp::RoomLeft(cst) => *cst,
                 _ => 0,
@@ -610,13 +679,16 @@ fn run_sampled_inner(c: &SCase, prop: E7Prop, rep: &mut CaseReport) -> Result<()
             }
             if let Ok(want) = i64::try_from(exact) {
                 if got != want {
-                    return Err(sv(prop, i, "room-left", format!("step {i} {op:?}: room_left({probe}) = {got}, but max_cost {max_cost} - recorded costs {sum} - {probe} = {want}; tracked {:?}", m)));
+                    return Err(sv(prop, i, "room-left", format!("step {i} {op:?}: room_left({probe}) = {got}, but max_cost {max_cost} - recorded costs {sum} - {probe} = {want}; tracked {}", if m.len() <= 32 { format!("{:?}", m) } else { format!("{} keys", m.len()) })));
                 }
                 if max_cost > (1i64 << 60) || max_cost < -(1i64 << 60) {
                     extreme_checked = true;
                 }
             }
         }
+    }
+    if burst_cleared {
+        rep.stats.hit(crate::model::Ev::BurstCleared);
     }
     if extreme_checked {
         rep.stats.hit(crate::model::Ev::ExtremeLimit);
